@@ -221,40 +221,92 @@ Proof.
   destruct t as [[m01' m10']|]; eauto with c05.
 Qed.
 
-(* a cell method whose intervals CellMethod.sorted never indexes *)
-Definition cm_simple (c : cmeth) : Prop :=
-  (length (m_intervals c) <= 1)%nat \/ length (m_axes c) = 1%nat.
-
-Lemma sorted_intervals_ok c idx : cm_simple c -> okR (sorted_intervals c idx).
+(* CellMethod.sorted never indexes outside the intervals: the indices collected by the
+   scan are positions in the axes of the other cell method *)
+Lemma index_of_lt s l : In s l -> (index_of s l < length l)%nat.
 Proof.
-  unfold sorted_intervals, cm_simple. intros [H|H].
-  - destruct (Nat.eqb _ 1); eauto with c05.
-    destruct (Nat.leb (length (m_intervals c)) 1) eqn:E; eauto with c05.
-    apply Nat.leb_gt in E. lia.
-  - rewrite H. simpl. eauto with c05.
+  induction l as [|x r IH]; simpl; [contradiction|]. intro H.
+  destruct (String.eqb s x) eqn:E; [lia|]. destruct H as [H|H].
+  - subst. rewrite String.eqb_refl in E. discriminate.
+  - apply IH in H. lia.
 Qed.
 
-Lemma one_cm_eq_new o a m c0 c1 : cm_simple c1 -> okR (one_cm_eq New o a m c0 c1).
+Lemma remove1_incl s l : incl (remove1 s l) l.
 Proof.
-  intro H. unfold one_cm_eq. destruct (negb _); eauto with c05.
-  destruct (scan_axes0 _ _ _ _ _ _ _); eauto with c05.
+  induction l as [|x r IH]; simpl; [apply incl_refl|].
+  destruct (String.eqb s x); [apply incl_tl, incl_refl|].
+  intros z [H|H]; [now left|right; now apply IH].
+Qed.
+
+Definition idx_ok (orig : list string) (idx : list nat) : Prop :=
+  Forall (fun i => (i < length orig)%nat) idx.
+
+Lemma scan_axes1_inv v ax0 ax1 orig axis0 fuel : forall a m i axes1 indices axes1' indices' a' m',
+  scan_axes1 v ax0 ax1 a m orig axis0 fuel i axes1 indices = SDone axes1' indices' a' m' ->
+  incl axes1 orig -> idx_ok orig indices -> incl axes1' orig /\ idx_ok orig indices'.
+Proof.
+  induction fuel as [|fuel IH]; intros a m i axes1 indices axes1' indices' a' m'; simpl.
+  - intro H; inversion H; subst; auto.
+  - destruct (nth_error axes1 i) as [axis1|] eqn:N; [|intro H; inversion H; subst; auto].
+    intros H I X.
+    assert (In1 : In axis1 orig) by (apply I; eapply nth_error_In; eauto).
+    assert (I' : incl (remove1 axis1 axes1) orig)
+      by (intros z Hz; apply I; eapply remove1_incl; eauto).
+    assert (X' : idx_ok orig (indices ++ [index_of axis1 orig])).
+    { apply Forall_app; split; auto. constructor; auto. now apply index_of_lt. }
+    repeat match type of H with
+    | context [if ?b then _ else _] => destruct b
+    end; try discriminate; try (inversion H; subst; auto; fail); try (eapply IH; eauto; fail).
+Qed.
+
+Lemma scan_axes0_inv v ax0 ax1 orig axes0 : forall a m axes1 indices indices' a' m',
+  scan_axes0 v ax0 ax1 a m orig axes0 axes1 indices = Some (indices', a', m') ->
+  incl axes1 orig -> idx_ok orig indices -> idx_ok orig indices'.
+Proof.
+  induction axes0 as [|axis0 r IH]; intros a m axes1 indices indices' a' m'; cbn [scan_axes0].
+  - intro H; inversion H; subst; auto.
+  - destruct (scan_axes1 v ax0 ax1 a m orig axis0 (S (length axes1)) 0 axes1 indices)
+      as [|axes1'' indices'' a'' m''] eqn:E; [discriminate|].
+    intros H I X. destruct (scan_axes1_inv _ _ _ _ _ _ _ _ _ _ _ _ _ _ _ E I X) as [I2 X2].
+    eapply IH; eauto.
+Qed.
+
+Lemma pick_ok {A} (l : list A) idx :
+  Forall (fun i => (i < length l)%nat) idx -> exists r, pick l idx = Some r.
+Proof.
+  induction 1 as [|i r Hi _ IH]; simpl; [eauto|].
+  destruct IH as [xs ->]. destruct (nth_error l i) eqn:E; [eauto|].
+  apply nth_error_None in E. lia.
+Qed.
+
+Lemma sorted_intervals_new c idx :
+  idx_ok (m_axes c) idx -> okR (sorted_intervals New c idx).
+Proof.
+  intro X. unfold sorted_intervals. cbn [fixI New].
+  destruct (Nat.eqb (length (m_axes c)) 1); eauto with c05.
+  destruct (Nat.eqb (length (m_intervals c)) (length (m_axes c))) eqn:E; simpl; eauto with c05.
+  apply Nat.eqb_eq in E. unfold idx_ok in X. rewrite <- E in X.
+  destruct (pick_ok _ _ X) as [r ->]. eauto with c05.
+Qed.
+
+Lemma one_cm_eq_new o ax0 ax1 a m c0 c1 : okR (one_cm_eq New o ax0 ax1 a m c0 c1).
+Proof.
+  unfold one_cm_eq. destruct (negb _); eauto with c05.
+  destruct (scan_axes0 _ _ _ _ _ _ _ _ _) as [[[indices a'] m']|] eqn:E; eauto with c05.
   destruct (negb _); eauto with c05.
-  apply rbind_ok; [now apply sorted_intervals_ok|eauto with c05].
+  apply rbind_ok; [|eauto with c05]. apply sorted_intervals_new.
+  eapply scan_axes0_inv; eauto; [apply incl_refl|constructor].
 Qed.
 
-Lemma cms_zip_eq_new o a m l0 : forall l1,
-  Forall (fun kc => cm_simple (snd kc)) l1 -> okR (cms_zip_eq New o a m l0 l1).
+Lemma cms_zip_eq_new o ax0 ax1 l0 : forall a m l1, okR (cms_zip_eq New o ax0 ax1 a m l0 l1).
 Proof.
-  induction l0 as [|[k0 c0] r0 IH]; intros l1 H; simpl; eauto with c05.
+  induction l0 as [|[k0 c0] r0 IH]; intros a m l1; simpl; eauto with c05.
   destruct l1 as [|[k1 c1] r1]; eauto with c05.
-  inversion H; subst. apply andR_ok; [now apply one_cm_eq_new|now apply IH].
+  destruct (one_cm_eq_new o ax0 ax1 a m c0 c1) as [t ->]. destruct t as [[a' m']|]; eauto with c05.
 Qed.
 
-Lemma cms_eq_new o m l0 l1 :
-  Forall (fun kc => cm_simple (snd kc)) l1 -> okR (cms_eq New o m l0 l1).
-Proof.
-  intro H. unfold cms_eq. destruct (negb _); simpl; eauto with c05. now apply cms_zip_eq_new.
-Qed.
+Lemma cms_eq_new o ax0 ax1 m l0 l1 : okR (cms_eq New o ax0 ax1 m l0 l1).
+Proof. unfold cms_eq. destruct (negb _); simpl; eauto with c05. apply cms_zip_eq_new. Qed.
 
 Lemma crs_eq_ok o ps l0 l1 : okR (crs_eq o ps l0 l1).
 Proof.
@@ -266,11 +318,9 @@ Qed.
 Lemma sizes_eq_new x y : okR (sizes_eq New x y).
 Proof. unfold sizes_eq; simpl. eauto with c05. Qed.
 
-Definition cms_simple (f : field) : Prop := Forall (fun kc => cm_simple (snd kc)) (f_cms f).
-
-Lemma constructs_eq_new o x y : cms_simple y -> okR (constructs_eq New o x y).
+Lemma constructs_eq_new o x y : okR (constructs_eq New o x y).
 Proof.
-  intro W. unfold constructs_eq. apply andR_ok; [apply sizes_eq_new|].
+  unfold constructs_eq. apply andR_ok; [apply sizes_eq_new|].
   destruct (negb _); eauto with c05.
   destruct (match_groups_new (nested o) (f_cons y) (groups (f_cons x)) (groups (f_cons y))) as [t ->].
   destruct t as [[aps ps]|]; eauto with c05.
@@ -280,13 +330,10 @@ Proof.
   repeat apply andR_ok; auto using cms_eq_new, sizes_eq_new, crs_eq_ok.
 Qed.
 
-Definition wf_total (y : top) : Prop :=
-  match y with TField f => cms_simple f | _ => True end.
-
-Theorem top_eq_total : forall o x y, wf_total y ->
+Theorem top_eq_total : forall o x y,
   match top_eq New o x y with Some (Err _) => False | _ => True end.
 Proof.
-  intros o x y W.
+  intros o x y.
   assert (G : forall r : result bool, okR r -> match Some r with Some (Err _) => False | _ => True end).
   { intros r [b ->]. exact I. }
   destruct x, y; simpl; try (destruct (o_itype o); exact I).
@@ -294,7 +341,7 @@ Proof.
     destruct (negb _); [exact I|]. destruct (_ && _); [apply G, cons_body_eq_new|exact I].
   - apply G, pd_eq_new.
   - unfold field_eq. destruct (negb _); [destruct (o_itype o); exact I|].
-    apply G, andR_ok; [apply pd_eq_new|now apply constructs_eq_new].
+    apply G, andR_ok; [apply pd_eq_new|apply constructs_eq_new].
 Qed.
 
 (* ====================================================================== *)
@@ -469,7 +516,7 @@ Theorem data_equal_components : forall r a idt ifv icomp x y,
   mask_of (d_arr x) = mask_of (d_arr y) /\
   d_units x = d_units y /\ d_cal x = d_cal y /\
   (ifv = false -> d_fill x = d_fill y) /\
-  (idt = false -> a_tag (d_arr x) = a_tag (d_arr y)) /\
+  (idt = false -> a_tag (d_arr x) = a_tag (d_arr y) \/ (a_str (d_arr x) = true /\ a_str (d_arr y) = true)) /\
   (icomp = false -> d_ctype x = d_ctype y) /\
   forallb2 (elem_eq (if a_str (d_arr x) then (if a_str (d_arr y) then 1 else 2)
                      else (if a_str (d_arr y) then 2 else 0)) r a)
@@ -481,7 +528,9 @@ Proof.
     destruct N as (N1 & N2 & _ & N4) end.
   splits; auto using option_eqb_string_eq.
   - intros ->. simpl in *. now apply option_eqb_Z_eq.
-  - intros ->. simpl in *. now apply Z.eqb_eq.
+  - intros ->. simpl in *.
+    match goal with C : (Z.eqb _ _) || _ = true |- _ => apply orb_true_iff in C; destruct C as [C'|C'] end;
+      [left; now apply Z.eqb_eq|right; now apply andb_true_iff in C'].
   - intros ->. simpl in *. match goal with C : _ && _ = true |- _ => apply andb_true_iff in C; destruct C as [C _];
       now apply String.eqb_eq in C end.
 Qed.
@@ -756,7 +805,8 @@ Proof.
   rewrite (list_eqb_sym Z.eqb Z.eqb_sym (a_shape (d_arr x))), (option_eqb_sym Z.eqb Z.eqb_sym (d_fill x)),
     (Z.eqb_sym (a_tag (d_arr x))), (option_eqb_sym String.eqb String.eqb_sym (d_units x)),
     (option_eqb_sym String.eqb String.eqb_sym (d_cal x)), (String.eqb_sym (d_ctype x)),
-    (np_equals_sym false r a (d_carr x)), (np_equals_sym idt r a (d_arr x)) by assumption.
+    (np_equals_sym false r a (d_carr x)), (np_equals_sym idt r a (d_arr x)),
+    (andb_comm (a_str (d_arr x))) by assumption.
   destruct (String.eqb (d_ctype y) (d_ctype x)) eqn:E; auto.
   apply String.eqb_eq in E. now rewrite E.
 Qed.
@@ -799,6 +849,265 @@ Qed.
 Theorem data_sym_exact : forall o x y, exact o ->
   top_eq New o (TData x) (TData y) = top_eq New o (TData y) (TData x).
 Proof. intros o x y [Hr Ha]. simpl. now rewrite data_eq_sym. Qed.
+
+(* ====================================================================== *)
+(* G. a whole field / domain equals a structurally identical one (its copy) *)
+(* ====================================================================== *)
+Local Arguments match_types v o other !tys i0 i1.
+
+Definition dup {A} (x : A) : A * A := (x, x).
+Definition diag {A} (p : A * A) : Prop := fst p = snd p.
+
+Lemma greedyR_self {A} (eq : A -> A -> result bool) xs :
+  Forall (fun x => eq x x = Ok true) xs -> greedyR eq xs xs = Ok (Some (map dup xs)).
+Proof.
+  induction 1 as [|x r H _ IH]; simpl; auto. rewrite H. simpl. rewrite IH. reflexivity.
+Qed.
+
+(* a cell method names no axis twice; qualifier / parameter names are unique (dictionaries) *)
+Definition wf_cm (c : cmeth) : Prop := NoDup (keys (m_quals c)) /\ NoDup (m_axes c).
+Definition wf_cr (c : cref) : Prop :=
+  NoDup (keys (r_cparams c)) /\ NoDup (keys (r_cdas c)) /\ NoDup (keys (r_dparams c)).
+Definition wf_field (f : field) : Prop :=
+  NoDup (keys (f_props f)) /\
+  Forall (fun kc : kcons => wf_cons (snd (snd kc))) (f_cons f) /\
+  Forall (fun kc : string * cmeth => wf_cm (snd kc)) (f_cms f) /\
+  Forall (fun kr : string * cref => wf_cr (snd kr)) (f_crs f).
+
+Lemma cons_body_eq_refl o x : opts_ok o -> wf_cons x -> cons_body_eq New o x x = Ok true.
+Proof.
+  intros Ho (W1 & W2 & W3). unfold cons_body_eq.
+  rewrite pd_eq_refl, !opt_pd_eq_refl, !(option_eqb_refl String.eqb _ String.eqb_refl); auto.
+Qed.
+
+Lemma nested_ok o : opts_ok o -> opts_ok (nested o).
+Proof. intros [H1 H2]. split; assumption. Qed.
+
+Definition items_ok (P : cons -> Prop) (items : list (string * cons)) : Prop :=
+  Forall (fun kc => P (snd kc)) items.
+
+Lemma add_group_ok (P : cons -> Prop) k ax c gs : P c ->
+  Forall (fun g : group => items_ok P (snd g)) gs ->
+  Forall (fun g : group => items_ok P (snd g)) (add_group k ax c gs).
+Proof.
+  intros Hc. induction 1 as [|[ax' items] r Hg Hr IH]; simpl.
+  - repeat constructor; auto.
+  - destruct (axes_eqb ax ax').
+    + constructor; [|assumption]. unfold items_ok in *. simpl in *.
+      apply Forall_app; split; [assumption|]. constructor; [exact Hc|constructor].
+    + constructor; assumption.
+Qed.
+
+Lemma groups_ok (P : cons -> Prop) cs : Forall (fun kc : kcons => P (snd (snd kc))) cs ->
+  Forall (fun g : group => items_ok P (snd g)) (groups cs).
+Proof.
+  unfold groups. generalize (@nil group) (Forall_nil (fun g : group => items_ok P (snd g))).
+  induction cs as [|kc r IH]; intros gs Hgs H; simpl; auto.
+  inversion H; subst. apply IH; auto. apply add_group_ok; auto.
+Qed.
+
+Lemma match_types_self o other tys i : opts_ok o -> items_ok wf_cons i ->
+  exists ps, match_types New o other tys i i = Ok (Some ps) /\ Forall diag ps.
+Proof.
+  intros Ho W. induction tys as [|t rest IH]; simpl.
+  - exists []. auto.
+  - rewrite Nat.eqb_refl. simpl.
+    rewrite (greedyR_self (fun a b : string * cons => cons_body_eq New o (snd a) (snd b)) (role t i)).
+    + destruct IH as [qs [-> D]]. eexists; split; [reflexivity|].
+      apply Forall_app; split; auto.
+      apply Forall_forall. intros p Hp. apply in_map_iff in Hp. destruct Hp as [ab [<- Hab]].
+      apply in_map_iff in Hab. destruct Hab as [z [<- _]]. reflexivity.
+    + unfold role. apply Forall_forall. intros kc Hkc. apply filter_In in Hkc. destruct Hkc as [Hkc _].
+      unfold items_ok in W. rewrite Forall_forall in W. apply cons_body_eq_refl; auto.
+Qed.
+
+Lemma find_group_self o other (g : group) (r : list group) : opts_ok o -> items_ok wf_cons (snd g) ->
+  exists ps, find_group New o other g (g :: r) = Ok (Some (g, r, ps)) /\ Forall diag ps.
+Proof.
+  intros Ho W. destruct (match_types_self o other type_order (snd g) Ho W) as [ps [E D]].
+  exists ps. split; auto. cbn [find_group]. rewrite Nat.eqb_refl. cbn [negb]. rewrite E. reflexivity.
+Qed.
+
+Lemma match_groups_self o other gs : opts_ok o ->
+  Forall (fun g : group => items_ok wf_cons (snd g)) gs ->
+  exists ps, match_groups New o other gs gs = Ok (Some (map (fun g => dup (fst g)) gs, ps)) /\ Forall diag ps.
+Proof.
+  intros Ho. induction 1 as [|g r W _ IH]; cbn [match_groups].
+  - exists []. auto.
+  - destruct (find_group_self o other g r Ho W) as [ps [E0 D]].
+    destruct IH as [qs [E D']]. exists (ps ++ qs). split; [|apply Forall_app; auto].
+    rewrite E0. cbv iota beta. rewrite E. reflexivity.
+Qed.
+
+Lemma assoc_diag (m : amap) a b : Forall diag m -> assoc a m = Some b -> b = a.
+Proof.
+  induction 1 as [|[k v] r D _ IH]; simpl; [discriminate|].
+  destruct (String.eqb a k) eqn:E; auto.
+  intro H; inversion H; subst. apply String.eqb_eq in E. unfold diag in D; simpl in D. congruence.
+Qed.
+
+Lemma map_axes_self ax : forall m, Forall diag m ->
+  exists m', map_axes New m m (zip ax ax) = Ok (Some (m', m')) /\ Forall diag m'.
+Proof.
+  induction ax as [|a r IH]; intros m D; cbn [zip map_axes].
+  - eauto.
+  - assert (C : match assoc a m with Some b => negb (String.eqb a b) | None => false end = false).
+    { destruct (assoc a m) as [b|] eqn:E; auto. rewrite (assoc_diag m a b D E), String.eqb_refl. reflexivity. }
+    rewrite C. cbv iota. apply IH. destruct (mem a (keys m)); auto.
+    apply Forall_app; split; auto. repeat constructor.
+Qed.
+
+Lemma map_all_axes_self axs : forall m, Forall diag m ->
+  exists m', map_all_axes New m m (map dup axs) = Ok (Some (m', m')) /\ Forall diag m'.
+Proof.
+  induction axs as [|ax r IH]; intros m D; cbn [map map_all_axes dup]; [eauto|].
+  destruct (map_axes_self ax m D) as [m1 [-> D1]]. apply IH; auto.
+Qed.
+
+Lemma swap_diag (m : amap) : Forall diag m -> map swap m = m.
+Proof.
+  induction 1 as [|[a b] r D _ IH]; simpl; auto.
+  unfold diag in D; simpl in D; subst. unfold swap at 1; simpl. now rewrite IH.
+Qed.
+
+Lemma scan_axes1_self ax m orig a l indices : Forall diag m ->
+  exists m', scan_axes1 New ax ax m m orig a (S (length (a :: l))) 0 (a :: l) indices
+             = SDone l (indices ++ [index_of a orig]) m' m' /\ Forall diag m'.
+Proof.
+  intro D. cbn [scan_axes1 nth_error length].
+  assert (R : remove1 a (a :: l) = l) by (simpl; now rewrite String.eqb_refl).
+  destruct (mem a (keys m)) eqn:M.
+  - cbn [andb].
+    assert (A : assoc a m = Some a).
+    { rewrite mem_keys_assoc in M. destruct (assoc a m) eqn:E; [|discriminate]. f_equal. eapply assoc_diag; eauto. }
+    rewrite A. cbn [option_eqb]. rewrite String.eqb_refl, R. eauto.
+  - cbn [andb orb fixU New]. destruct (mem a (keys ax)) eqn:K; cbn [andb orb].
+    + rewrite Z.eqb_refl, R. exists (m ++ [(a, a)]). split; auto.
+      apply Forall_app; split; auto. repeat constructor.
+    + rewrite String.eqb_refl. cbn [fixG New]. rewrite R. eauto.
+Qed.
+
+Lemma scan_axes0_self ax orig l : forall m indices, Forall diag m ->
+  exists m', scan_axes0 New ax ax m m orig l l indices
+             = Some (indices ++ map (fun a => index_of a orig) l, m', m') /\ Forall diag m'.
+Proof.
+  induction l as [|a r IH]; intros m indices D; cbn [scan_axes0 map].
+  - exists m. rewrite app_nil_r. auto.
+  - destruct (scan_axes1_self ax m orig a r indices D) as [m1 [E D1]]. rewrite E.
+    destruct (IH m1 (indices ++ [index_of a orig]) D1) as [m2 [E2 D2]]. exists m2. rewrite E2.
+    split; auto. now rewrite <- app_assoc.
+Qed.
+
+Lemma index_of_app_notin a pre r : ~ In a pre -> index_of a (pre ++ a :: r) = length pre.
+Proof.
+  induction pre as [|x p IH]; simpl; intro N.
+  - now rewrite String.eqb_refl.
+  - destruct (String.eqb a x) eqn:E.
+    + apply String.eqb_eq in E. subst. exfalso. apply N. now left.
+    + f_equal. apply IH. intro; apply N; now right.
+Qed.
+
+Lemma index_seq l : forall pre, NoDup (pre ++ l) ->
+  map (fun a => index_of a (pre ++ l)) l = seq (length pre) (length l).
+Proof.
+  induction l as [|a r IH]; intros pre N; simpl; auto. f_equal.
+  - apply index_of_app_notin. apply NoDup_remove_2 in N. intro I. apply N. apply in_or_app. now left.
+  - replace (pre ++ a :: r) with ((pre ++ [a]) ++ r) in * by (now rewrite <- app_assoc).
+    rewrite IH; auto. rewrite app_length. simpl. f_equal. lia.
+Qed.
+
+Lemma pick_seq {A} (l : list A) : forall pre, pick (pre ++ l) (seq (length pre) (length l)) = Some l.
+Proof.
+  induction l as [|a r IH]; intro pre; simpl; auto.
+  rewrite nth_error_app2 by lia. rewrite Nat.sub_diag. simpl.
+  replace (pre ++ a :: r) with ((pre ++ [a]) ++ r) by (now rewrite <- app_assoc).
+  specialize (IH (pre ++ [a])). rewrite app_length in IH. simpl in IH. rewrite Nat.add_1_r in IH.
+  now rewrite IH.
+Qed.
+
+Lemma sorted_intervals_self c :
+  sorted_intervals New c (seq 0 (length (m_axes c))) = Ok (m_intervals c).
+Proof.
+  unfold sorted_intervals. cbn [fixI New]. destruct (Nat.eqb (length (m_axes c)) 1); auto.
+  destruct (Nat.eqb (length (m_intervals c)) (length (m_axes c))) eqn:E; simpl; auto.
+  apply Nat.eqb_eq in E. rewrite <- E. pose proof (pick_seq (m_intervals c) []) as P.
+  simpl in P. now rewrite P.
+Qed.
+
+Lemma one_cm_eq_self o ax m c : opts_ok o -> wf_cm c -> Forall diag m ->
+  exists m', one_cm_eq New o ax ax m m c c = Ok (Some (m', m')) /\ Forall diag m'.
+Proof.
+  intros Ho [Nq Na] D. unfold one_cm_eq. rewrite Nat.eqb_refl. cbn [negb].
+  destruct (scan_axes0_self ax (m_axes c) (m_axes c) m [] D) as [m' [-> D']].
+  cbn [app]. pose proof (index_seq (m_axes c) [] Na) as IS. cbn [app length] in IS. rewrite IS.
+  rewrite seq_length, Nat.eqb_refl. cbn [negb]. rewrite sorted_intervals_self. cbn [rbind].
+  assert (E : cm_eq o c (mkM (m_axes c) (m_method c) (m_quals c) (m_intervals c)) = true).
+  { destruct c as [ax' me q iv]. simpl in *. apply (cm_eq_refl o (mkM ax' me q iv)); auto. }
+  rewrite E. eauto.
+Qed.
+
+Lemma cms_zip_eq_self o ax l : opts_ok o -> Forall (fun kc : string * cmeth => wf_cm (snd kc)) l ->
+  forall m, Forall diag m -> cms_zip_eq New o ax ax m m l l = Ok true.
+Proof.
+  intros Ho. induction 1 as [|[k c] r W _ IH]; intros m D; cbn [cms_zip_eq]; auto.
+  destruct (one_cm_eq_self o ax m c Ho W D) as [m' [-> D']]. now apply IH.
+Qed.
+
+Lemma k1to0_diag ps k : Forall diag ps -> k1to0 ps k = k.
+Proof.
+  intro D. unfold k1to0. rewrite (swap_diag ps D). destruct (assoc k ps) eqn:E; auto.
+  eapply assoc_diag; eauto.
+Qed.
+
+Lemma set_eq_refl l : set_eq l l = true.
+Proof.
+  unfold set_eq. assert (H : forallb (fun k => mem k l) l = true)
+    by (apply forallb_forall; intros; now apply mem_in).
+  now rewrite H.
+Qed.
+
+Lemma cref_match_self o ps r : opts_ok o -> Forall diag ps -> wf_cr (snd r) -> cref_match o ps r r = Ok true.
+Proof.
+  intros Ho D (N1 & N2 & N3). unfold cref_match. f_equal.
+  rewrite cref_eq_refl; auto.
+  rewrite (map_ext _ (fun k => k)) by (intro; now apply k1to0_diag). rewrite map_id, set_eq_refl.
+  rewrite (map_ext _ (fun tk => tk)).
+  - rewrite map_id. apply dict_eq_refl; auto. intro; apply option_eqb_refl, String.eqb_refl.
+  - intros [t [k|]]; simpl; auto. now rewrite k1to0_diag.
+Qed.
+
+Lemma crs_eq_self o ps l : opts_ok o -> Forall diag ps ->
+  Forall (fun kr : string * cref => wf_cr (snd kr)) l -> crs_eq o ps l l = Ok true.
+Proof.
+  intros Ho D W. unfold crs_eq. rewrite Nat.eqb_refl. cbn [negb].
+  rewrite greedyR_self; auto. eapply Forall_impl; [|exact W]. intros r Hr. now apply cref_match_self.
+Qed.
+
+Lemma constructs_eq_self o x : opts_ok o -> wf_field x -> constructs_eq New o x x = Ok true.
+Proof.
+  intros Ho (Wp & Wc & Wm & Wr). unfold constructs_eq.
+  assert (S : sizes_eq New (f_axes x) (f_axes x) = Ok true).
+  { unfold sizes_eq. simpl. f_equal. apply list_eqb_refl, Z.eqb_refl. }
+  rewrite S. cbn [andR]. rewrite Nat.eqb_refl. cbn [negb].
+  destruct (match_groups_self (nested o) (f_cons x) (groups (f_cons x)) (nested_ok o Ho)
+              (groups_ok wf_cons (f_cons x) Wc)) as [ps [-> D]].
+  cbn [fixC New].
+  match goal with |- match map_all_axes New [] [] ?a with _ => _ end = _ => set (aps' := a) end.
+  assert (A : exists axs, aps' = map dup axs).
+  { subst aps'. destruct (f_daxes x) as [d|].
+    - exists (map fst (groups (f_cons x)) ++ [d]). now rewrite map_app, map_map.
+    - exists (map fst (groups (f_cons x))). now rewrite map_map. }
+  destruct A as [axs ->].
+  destruct (map_all_axes_self axs [] (Forall_nil _)) as [m [-> Dm]].
+  unfold cms_eq. rewrite Nat.eqb_refl. cbn [negb]. rewrite (swap_diag m Dm), cms_zip_eq_self; auto.
+  cbn [andR]. now apply crs_eq_self.
+Qed.
+
+Theorem field_copy_equal : forall o x, opts_ok o -> wf_field x -> field_eq New o x x = Some (Ok true).
+Proof.
+  intros o x Ho W. unfold field_eq. rewrite bool_eqb_refl. cbn [negb]. f_equal.
+  rewrite pd_eq_refl; auto; [|exact (proj1 W)]. cbn [andR]. now apply constructs_eq_self.
+Qed.
 
 (* ====================================================================== *)
 (* witnesses and non-vacuity                                               *)
